@@ -3,7 +3,7 @@
 
 A case is one text line `<kind> <args...>` (the orchestrator prepends the id).  Token formats: see harness/vharness.cc.
 """
-import itertools, random
+import itertools, os, random
 
 # ranked alphabet used for explicit tree automata: symbol number -> rank
 ALPHA = [(0, 0), (1, 0), (2, 0), (3, 1), (4, 2), (5, 2), (6, 3), (7, 1)]
@@ -925,7 +925,114 @@ def g_bddh(rng):
     return f"bddh {enc} " + " ".join(steps)
 
 
+# ---------------------------------------------------------------- Timbuk texts (C13)
+import glob as _glob
+_TB_ALPHA = list(b"ab q0:-+>(),  \t\r\n\x0b\x0c1x9") + [0x80, 0xff, 0]
+_TB_KW = [b"Ops", b"Automaton", b"States", b"Final", b"Final States", b"Transitions", b"->", b"(", b")", b",", b":", b" ", b"\n", b"\r\n",
+          b"a", b"b", b"q", b"q0", b"q1", b":0", b":2", b":-1", b":+3", b":2147483647", b":2147483648", b":-2147483648", b":-2147483649",
+          b":99999999999999999999999", b":007", b":1x", b":x", b":", b"a()", b"a( )", b"a(q)", b"a(q, q)", b"a(q,q)", b"a(,)", b"a(b(c))", b"-", b">",
+          b"- >", b"\t", b"\x0b", b"\x0c", b"\x00", b"\xc3\xa9"]
+_TB_FILES = None
+
+
+def _tb_name(rng):
+    cs = b"abqxyz019_-><.+*[]{}'\"\\/\x80\xff"
+    return bytes(rng.choice(cs) for _ in range(rng.randint(1, 3)))
+
+
+def tb_valid(rng, ranked=False):
+    """a valid Timbuk file; ranked=True: ranks equal arities, so that the loaders accept it as a tree automaton"""
+    if ranked:
+        syms = [(b"s%d" % i, rng.choice([0, 0, 1, 2])) for i in range(rng.randint(1, 4))]
+        sts = [b"q%d" % i for i in range(rng.randint(1, 4))]
+    else:
+        syms = [(_tb_name(rng), rng.choice([0, 0, 1, 2, 3, -1, 10])) for _ in range(rng.randint(0, 3))]
+        sts = [_tb_name(rng) for _ in range(rng.randint(0, 3))]
+    out = b"Ops " + b"".join(s + b":" + str(r).encode() + b" " for s, r in syms) + b"\n"
+    out += b"Automaton " + rng.choice([b"A", b"anonymous", _tb_name(rng)]) + b"\n"
+    out += b"States " + b"".join(s + rng.choice([b"", b":0", b":1"]) + b" " for s in sts) + b"\n"
+    out += b"Final States " + b"".join(s + b" " for s in sts if rng.random() < 0.5) + b"\n"
+    out += b"Transitions\n"
+    for _ in range(rng.randint(0, 5)):
+        if ranked:
+            s, k = rng.choice(syms)
+        else:
+            s = rng.choice(syms)[0] if syms else _tb_name(rng)
+            k = rng.randint(0, 3)
+        kids = [rng.choice(sts) if sts else _tb_name(rng) for _ in range(k)]
+        sep = rng.choice([b", ", b",", b" , "])
+        lhs = s + ((b"(" + sep.join(kids) + b")") if (k > 0 or rng.random() < 0.3) else b"")
+        out += lhs + rng.choice([b" -> ", b"->", b"  ->  "]) + (rng.choice(sts) if sts else _tb_name(rng)) + b"\n"
+    return out
+
+
+def tb_nfa(rng):
+    """a Timbuk file that is a word automaton (unary symbols, start rules `a -> q`)"""
+    sts = [b"q%d" % i for i in range(rng.randint(1, 4))]
+    syms = [b"a", b"b", b"c"][: rng.randint(1, 3)]
+    out = b"Ops " + b"".join(s + b":1 " for s in syms) + b"x:0\nAutomaton A\nStates " + b" ".join(sts) + b"\nFinal States "
+    out += b" ".join(s for s in sts if rng.random() < 0.5) + b"\nTransitions\n"
+    for _ in range(rng.randint(1, 3)):
+        out += rng.choice(syms + [b"x"]) + b" -> " + rng.choice(sts) + b"\n"
+    for _ in range(rng.randint(0, 5)):
+        out += rng.choice(syms) + b"(" + rng.choice(sts) + b") -> " + rng.choice(sts) + b"\n"
+    return out
+
+
+def tb_mutate(rng, b):
+    b = bytearray(b)
+    for _ in range(rng.randint(1, 4)):
+        op = rng.randint(0, 4)
+        pos = rng.randint(0, len(b))
+        if op == 0 and b:
+            del b[min(pos, len(b) - 1)]
+        elif op == 1:
+            b[pos:pos] = bytes([rng.choice(_TB_ALPHA)])
+        elif op == 2:
+            b[pos:pos] = rng.choice(_TB_KW)
+        elif op == 3 and b:
+            ls = bytes(b).split(b"\n")
+            i = rng.randrange(len(ls))
+            if rng.random() < 0.5:
+                del ls[i]
+            else:
+                ls.insert(rng.randrange(len(ls) + 1), ls[i])
+            b = bytearray(b"\n".join(ls))
+        elif op == 4 and b:
+            b[min(pos, len(b) - 1)] = rng.choice(_TB_ALPHA)
+    return bytes(b)
+
+
+def g_parse(rng):
+    global _TB_FILES
+    if _TB_FILES is None:
+        _TB_FILES = [f for f in sorted(_glob.glob("/repo/automata/small_timbuk/*")) if os.path.getsize(f) < 6000]
+    r = rng.random()
+    if r < 0.12:
+        t = tb_valid(rng)
+    elif r < 0.27:
+        t = tb_valid(rng, ranked=True)
+    elif r < 0.35:
+        t = tb_nfa(rng)
+    elif r < 0.60:
+        t = tb_mutate(rng, rng.choice([tb_valid(rng), tb_valid(rng, ranked=True), tb_nfa(rng)]))
+    elif r < 0.75:
+        t = b"".join(rng.choice(_TB_KW) for _ in range(rng.randint(0, 25)))
+    elif r < 0.84:
+        t = bytes(rng.choice(_TB_ALPHA) for _ in range(rng.randint(0, 40)))
+    elif r < 0.92:
+        t = b"Transitions\n" + b"".join(rng.choice(_TB_KW) for _ in range(rng.randint(0, 12)))
+    elif _TB_FILES:
+        t = open(rng.choice(_TB_FILES), "rb").read()
+        if rng.random() < 0.5:
+            t = tb_mutate(rng, t)
+    else:
+        t = tb_valid(rng)
+    return "parse " + t.hex()
+
+
 GENERATORS = {
+    "parse": g_parse,
     "bddincl": g_bddincl, "bddinclall": g_bddinclall, "bddtd": g_bddtd, "bddh": g_bddh,
     "mth": g_mth, "mthrc": g_mthrc,
     "tah_store": g_tah_store, "tah_hist": g_tah_hist,
